@@ -65,7 +65,7 @@ func (fr *frame) beforeAsserts(cc *ssa.CallCommon, st *bstate, site ssa.Instruct
 				match = true
 			}
 		}
-		if !match {
+		if !match || !f.e.active(ba.C.Tags) {
 			continue
 		}
 		key := fmt.Sprintf("%d|%s|%p", fr.id, ba.Callee, ba)
@@ -214,6 +214,7 @@ func (fr *frame) applyCall(cc *ssa.CallCommon, st *bstate, site ssa.Instruction,
 		// unknown callee: fresh result, heap havoc
 		f.abstr["call-unknown:"+shortCallee(name)]++
 		st.heap = f.hs.havocAll(st.heap)
+		st.heap.keepPrivate = !fr.calleeIsWriter(name)
 		if rt != nil {
 			result = f.freshVal("res."+shortCallee(name), rt)
 			f.assumeTypeRange(st, result)
@@ -332,6 +333,9 @@ func (fr *frame) applySpec(spec *FuncSpec, name string, pnames []string, args []
 	}
 	_ = ord
 	for _, r := range spec.Requires {
+		if !f.e.active(r.Tags) {
+			continue
+		}
 		v, err := env.evalBool(r.E)
 		if err != nil {
 			f.fail("%s: requires of %s at call: %v", r.Line, sn, err)
@@ -340,11 +344,24 @@ func (fr *frame) applySpec(spec *FuncSpec, name string, pnames []string, args []
 		tags := r.Tags
 		f.oblige(st, fmt.Sprintf("%s#call:%s:requires:%s", fnShortName(fr.fn), sn, clauseLabel(r)), "call-requires", tags, v, r.Src, r.Line)
 	}
+	for _, h := range spec.Holds {
+		a, err := env.evalAddr(h.E)
+		if err != nil {
+			f.fail("%s: holds of %s at call: %v", spec.Line, sn, err)
+			continue
+		}
+		goal := app(">=", f.lockHeld(st.heap, a), "1")
+		if h.Mode == 2 {
+			goal = eq(f.lockHeld(st.heap, a), "2")
+		}
+		f.oblige(st, fmt.Sprintf("%s#call:%s:holds:%s", fnShortName(fr.fn), sn, strings.Join(strings.Fields(h.Src), "")), "call-requires", nil, goal, "caller holds "+h.Src, spec.Line)
+	}
 	// frame
 	switch {
 	case spec.Pure:
 	case spec.ModAll || !spec.HasMod:
 		st.heap = f.hs.havocAll(st.heap)
+		st.heap.keepPrivate = !fr.calleeIsWriter(name)
 	default:
 		for _, m := range spec.Modifies {
 			nh, err := env.havocLocation(st.heap, m)
@@ -376,12 +393,18 @@ func (fr *frame) applySpec(spec *FuncSpec, name string, pnames []string, args []
 	}
 	post := f.newEnv(spec.Pkg, st.heap, pre, vars, rvals)
 	for _, c := range spec.Ensures {
+		if !f.e.active(c.Tags) {
+			continue
+		}
 		v, err := post.evalBool(c.E)
 		if err != nil {
 			f.fail("%s: ensures of %s at call: %v", c.Line, sn, err)
 			continue
 		}
 		f.assume(st, v, "ensures of "+sn+": "+c.Src)
+	}
+	if !spec.Extern && !spec.IsCallSpec && !spec.Trusted {
+		f.usedSpecs[name] = true
 	}
 	if spec.Extern || spec.IsCallSpec || spec.Trusted {
 		f.trusted[sn] = true
@@ -523,7 +546,7 @@ func (fr *frame) builtin(b *ssa.Builtin, cc *ssa.CallCommon, args []Val, st *bst
 		case *types.Slice:
 			f.exact["len"]++
 			l := f.sliceLen(a.Tm)
-			f.assume(st, and(app(">=", l, "0"), implies(eq(a.Tm, "0"), eq(l, "0"))), "len(slice) >= 0")
+			f.assume(st, and(app(">=", l, "0"), app("<=", l, "9223372036854775807"), implies(eq(a.Tm, "0"), eq(l, "0"))), "0 <= len(slice) <= maxint")
 			return intVal(l)
 		case *types.Map:
 			_, dk, _ := f.mapKeys(t)
@@ -789,6 +812,7 @@ func (fr *frame) lockHooks(cc *ssa.CallCommon, args []Val, st *bstate, before bo
 					nv := f.c.freshConst("interf."+fldName, sortOfType(ft))
 					nh := f.hs.write(st.heap, key, f.c.define("Hi."+key, f.hs.sorts[key], app("store", arr, base.Tm, nv)))
 					nh.obj = base.Tm
+					nh.interf = true
 					st.heap = nh
 					cur = nv
 				}
@@ -799,12 +823,14 @@ func (fr *frame) lockHooks(cc *ssa.CallCommon, args []Val, st *bstate, before bo
 						arr := f.hs.read(st.heap, dk)
 						nh := f.hs.write(st.heap, dk, f.c.define("Hi."+dk, f.hs.sorts[dk], app("store", arr, cur, f.c.freshConst("interf.dom", arrayElemSort(f.hs.sorts[dk])))))
 						nh.obj = cur
+						nh.interf = true
 						st.heap = nh
 					}
 					if okv {
 						arr := f.hs.read(st.heap, vk)
 						nh := f.hs.write(st.heap, vk, f.c.define("Hi."+vk, f.hs.sorts[vk], app("store", arr, cur, f.c.freshConst("interf.val", arrayElemSort(f.hs.sorts[vk])))))
 						nh.obj = cur
+						nh.interf = true
 						st.heap = nh
 					}
 				}
@@ -929,6 +955,9 @@ func (fr *frame) assumeTypeInvariants(st *bstate) {
 			continue
 		}
 		for _, inv := range ts.Invs {
+			if !f.e.active(inv.Tags) {
+				continue
+			}
 			env := f.newEnv(ts.Pkg, st.heap, st.heap, map[string]Val{"self": fr.vals[p]}, nil)
 			v, err := env.evalBool(inv.E)
 			if err != nil {
@@ -951,6 +980,9 @@ func (fr *frame) checkTypeInvariants(st *bstate) {
 			continue
 		}
 		for _, inv := range ts.Invs {
+			if !f.e.active(inv.Tags) || fr.isCtorOf(ts) && false {
+				continue
+			}
 			env := f.newEnv(ts.Pkg, st.heap, fr.oldHeap, map[string]Val{"self": fr.vals[p]}, nil)
 			v, err := env.evalBool(inv.E)
 			if err != nil {
@@ -959,5 +991,174 @@ func (fr *frame) checkTypeInvariants(st *bstate) {
 			}
 			f.oblige(st, fmt.Sprintf("%s#type-invariant:%s:%s", fnShortName(fr.fn), ts.Name, clauseLabel(inv)), "type-invariant", inv.Tags, v, inv.Src, inv.Line)
 		}
+	}
+}
+
+// calleeIsWriter: is the callee one of the declared writer methods of some
+// type's private fields?  Calls to anything else keep private fields.
+func (fr *frame) calleeIsWriter(name string) bool {
+	for _, ts := range fr.f.e.specs.types {
+		for _, pd := range ts.Private {
+			for _, w := range pd.Writers {
+				if strings.HasSuffix(name, "."+ts.Name+")."+w) || strings.HasSuffix(name, "/"+ts.Name+")."+w) || strings.HasSuffix(name, "*"+ts.Name+")."+w) {
+					return true
+				}
+				if strings.Contains(name, ts.Name+")."+w) {
+					return true
+				}
+			}
+		}
+	}
+	return false
+}
+
+// checkFieldStore: stores to final / private fields outside their constructors / writers.
+func (fr *frame) checkFieldStore(addr ssa.Value, st *bstate, pos token.Pos) {
+	f := fr.f
+	if f.dry {
+		return
+	}
+	fa, ok := addr.(*ssa.FieldAddr)
+	if !ok {
+		return
+	}
+	T := fa.X.Type().Underlying().(*types.Pointer).Elem()
+	ts := f.e.typeSpecOf(T)
+	if ts == nil {
+		return
+	}
+	fname := T.Underlying().(*types.Struct).Field(fa.Field).Name()
+	base := fr.val(fa.X)
+	if strings.HasPrefix(base.Tm, "(- ") || strings.HasPrefix(base.Tm, "alloc!") {
+		return // object under construction in this call
+	}
+	root := fr.fn
+	for root.Parent() != nil {
+		root = root.Parent()
+	}
+	isMethodOf := func(names []string) bool {
+		for _, n := range names {
+			if root.Name() == n {
+				return true
+			}
+		}
+		return false
+	}
+	for _, fn := range ts.Final {
+		if fn == fname && !isMethodOf(ts.Ctors) && f.e.active(ts.FinalTags) {
+			f.oblige(st, fmt.Sprintf("%s#frame:final:%s.%s", fnShortName(fr.fn), ts.Name, fname), "frame", ts.FinalTags, "false",
+				fmt.Sprintf("%s.%s is declared final: written only by %v", ts.Name, fname, ts.Ctors), posStr(f.e.fset, pos))
+		}
+	}
+	for _, pd := range ts.Private {
+		for _, fn := range pd.Fields {
+			if fn == fname && !isMethodOf(pd.Writers) && f.e.active(pd.Tags) {
+				f.oblige(st, fmt.Sprintf("%s#frame:private:%s.%s", fnShortName(fr.fn), ts.Name, fname), "frame", pd.Tags, "false",
+					fmt.Sprintf("%s.%s may only be written by %v", ts.Name, fname, pd.Writers), posStr(f.e.fset, pos))
+			}
+		}
+	}
+}
+
+// checkCtorInvariants: a constructor establishes the type invariants on its result.
+func (fr *frame) checkCtorInvariants(ret *retState) {
+	f := fr.f
+	rs := fr.fn.Signature.Results()
+	for i := 0; i < rs.Len() && i < len(ret.vals); i++ {
+		ts := f.e.typeSpecOf(rs.At(i).Type())
+		if ts == nil || len(ts.Invs) == 0 || !fr.isCtorOf(ts) {
+			continue
+		}
+		if _, isPtr := rs.At(i).Type().Underlying().(*types.Pointer); !isPtr {
+			continue
+		}
+		for _, inv := range ts.Invs {
+			if !f.e.active(inv.Tags) {
+				continue
+			}
+			env := f.newEnv(ts.Pkg, ret.st.heap, fr.oldHeap, map[string]Val{"self": ret.vals[i]}, nil)
+			v, err := env.evalBool(inv.E)
+			if err != nil {
+				f.fail("%s: invariant: %v", inv.Line, err)
+				continue
+			}
+			f.oblige(ret.st, fmt.Sprintf("%s#ctor-establishes:%s:%s", fnShortName(fr.fn), ts.Name, clauseLabel(inv)), "type-invariant", inv.Tags, implies(not(eq(ret.vals[i].Tm, "0")), v), inv.Src, inv.Line)
+		}
+	}
+}
+
+// checkFrame: a function declared pure / with a modifies list leaves every
+// other heap location as it found it.
+func (fr *frame) checkFrame(st *bstate) {
+	f := fr.f
+	if f.dry || fr.spec == nil || !fr.spec.HasMod || fr.spec.ModAll {
+		return
+	}
+	lf := &loopFrame{keys: map[string]map[string]bool{}}
+	f.frameMode = true
+	collectWrites(f, st.heap, f.entryHeap, lf, map[*Heap]bool{})
+	f.frameMode = false
+	name := fnShortName(fr.fn)
+	if lf.all {
+		f.oblige(st, name+"#frame:unknown-call-may-write-anything", "frame", nil, "false", "the function is declared pure / with a modifies list but calls a function without a frame", fr.spec.Line)
+		return
+	}
+	// allowed locations
+	allowedWhole := map[string]bool{}
+	allowedAt := map[string][]string{}
+	env := fr.specEnv(f.entryHeap, f.entryHeap, nil)
+	for _, m := range fr.spec.Modifies {
+		before := f.hs.n
+		probe, err := env.havocLocation(f.entryHeap, m)
+		_ = before
+		if err != nil {
+			f.fail("%s: modifies: %v", fr.spec.Line, err)
+			continue
+		}
+		for h := probe; h != nil && h != f.entryHeap; h = h.parent {
+			switch h.kind {
+			case "write":
+				if h.obj == "" {
+					allowedWhole[h.key] = true
+				} else {
+					allowedAt[h.key] = append(allowedAt[h.key], h.obj)
+				}
+			case "havocSome":
+				for k := range h.keys {
+					allowedWhole[k] = true
+				}
+			case "havoc":
+				return
+			}
+		}
+	}
+	for _, key := range sortedKeys(lf.keys) {
+		if allowedWhole[key] || f.hs.final[key] || strings.HasPrefix(key, "G.defer.") || strings.HasPrefix(key, "L") {
+			continue
+		}
+		srt := f.hs.sorts[key]
+		before, after := f.hs.read(f.entryHeap, key), f.hs.read(st.heap, key)
+		if before == after {
+			continue
+		}
+		goal := eq(after, before)
+		objs := append([]string{}, allowedAt[key]...)
+		// objects allocated by this very call, and locations changed only by modelled interference, are outside the caller's view
+		for o := range lf.keys[key] {
+			if strings.HasPrefix(o, "(- ") || strings.HasPrefix(o, "alloc!") || strings.HasPrefix(o, "interf:") {
+				objs = append(objs, strings.TrimPrefix(o, "interf:"))
+			}
+		}
+		if strings.HasPrefix(srt, "(Array Int") {
+			patched := before
+			for _, o := range objs {
+				if strings.HasPrefix(o, "(- ") || strings.HasPrefix(o, "alloc!") {
+					continue // fresh objects are outside the caller's view anyway
+				}
+				patched = app("store", patched, o, app("select", after, o))
+			}
+			goal = fmt.Sprintf("(forall ((o Int)) (=> (>= o 0) (= (select %s o) (select %s o))))", after, patched)
+		}
+		f.oblige(st, fmt.Sprintf("%s#frame:unchanged:%s", name, key), "frame", nil, goal, "location outside the declared frame is unchanged", fr.spec.Line)
 	}
 }
